@@ -1003,6 +1003,9 @@ def run(ctx) -> None:
              "when the look-up of THAT name failed: no statement that can raise follows the name's look-up inside the same try body "
              "(otherwise a value that is present in the description is dropped because another one is absent)")
     ctx.rule("C19.R4-reader-without-writer", "options parsed but never written are exactly the frozen list")
+    ctx.rule("C19.R16-a-shared-element-accumulates-its-keys", "where the reader looks an element up in a list by its name (the one 'docker' executor of a component) "
+             "because several written keys configure it, the element that is found is updated in place: it is never replaced by a fresh dictionary - "
+             "the key read first would be lost")
     ctx.rule("C19.R15-directories-in-glob-patterns-are-escaped", "every glob pattern of dosini.py is a constant wildcard part joined to a directory that went "
              "through glob.escape: the directory of an instance is text - with '[1]' in its path an unescaped pattern matches no stage file and the "
              "instance loads as an empty workflow")
@@ -1265,3 +1268,38 @@ def run(ctx) -> None:
 
     # R15: run-time directories inside glob patterns ------------------------------------------------------
     check_glob_directories_escaped(ctx, m)
+
+    # R16: an element shared by several keys accumulates them ------------------------------------------------
+    pc = m.func("Dosini.parse_component")
+    n16 = 0
+    for comp in [x for x in source.walk_own(pc) if isinstance(x, ast.ListComp) and len(x.generators) == 1 and x.generators[0].ifs
+                 and isinstance(x.generators[0].iter, ast.Name)]:
+        g = x_gen = comp.generators[0]
+        by_name = any(isinstance(t, ast.Compare) and isinstance(t.left, ast.Subscript) and isinstance(t.left.slice, ast.Constant)
+                      and t.left.slice.value == "name" for t in g.ifs)
+        st = source.stmt_of(comp)
+        if not by_name or not isinstance(st, ast.Assign) or not isinstance(st.targets[0], ast.Name):
+            continue
+        found, lst = st.targets[0].id, g.iter.id
+        # the statements of the same branch of the key chain
+        branch = next((a_ for a_ in source.ancestors(st) if isinstance(a_, ast.If)), None)
+        if branch is None:
+            continue
+        body = branch.body if any(st is y for b_ in branch.body for y in ast.walk(b_)) else branch.orelse
+        n16 += 1
+        replaced = [y for b_ in body for y in ast.walk(b_) if isinstance(y, ast.Assign) and any(
+            isinstance(t, ast.Subscript) and isinstance(t.value, ast.Name) and t.value.id == lst for t in y.targets)]
+        removed = [y for b_ in body for y in ast.walk(b_) if isinstance(y, ast.Call) and last_attr(y) in ("remove", "pop", "clear")
+                   and isinstance(y.func.value, ast.Name) and y.func.value.id == lst]
+        updated = [y for b_ in body for y in ast.walk(b_) if (isinstance(y, ast.Call) and last_attr(y) in ("update", "setdefault") and isinstance(y.func.value, ast.Subscript)
+                                                             and isinstance(y.func.value.value, ast.Name) and y.func.value.value.id == found)
+                   or (isinstance(y, ast.Assign) and any(isinstance(t, ast.Subscript) and isinstance(t.value, ast.Subscript) and isinstance(t.value.value, ast.Name)
+                                                         and t.value.value.id == found for t in y.targets))]
+        ok = bool(updated) and not replaced and not removed
+        ctx.ob("C19.R16-a-shared-element-accumulates-its-keys", (replaced or removed or [st])[0], ok,
+               "the %s element found by name is updated in place" % lst if ok else
+               "the reader replaces the element of %s it found by name with a fresh dictionary (%s) instead of updating it: a component whose 'docker' "
+               "executor is written with both docker-image and docker-args reloads with only the key that is read last - the other option is lost, "
+               "under every hash seed" % (lst, short((replaced or removed or [st])[0], 60)),
+               construct="parse_component: the element of %s found by name accumulates its keys" % lst)
+    ctx.floor("C19.R16-a-shared-element-accumulates-its-keys", n16, 1, "look-ups of a list element by name in parse_component")
